@@ -270,6 +270,32 @@ Example C08_epoch_witness_trace :
   = [(Proposed, 7); (Aborted, 7); (Proposed, 3)].
 Proof. vm_compute. reflexivity. Qed.
 
+(* the carve-out "never through Left" of C08_epoch_monotone_members is needed: a member whose leader
+   lists it as leaving AND joining keeps the group file as FinalGroup when the execute moves it to
+   Left, accepts a proposal ten epochs ahead, is aborted, and falls back to epoch 1 + 1 *)
+Definition w_terms_lj (epoch : Z) (joining : list participant) : terms :=
+  mkT w_B 2 epoch 1000 (Some w_x) 5 30 w_sch 0 [9] joining [w_x; w_y] [w_me].
+Definition w_g1' : group := mkG [w_x; w_y; w_me] 2 0 [9].
+Definition w_fin1' : dbstate :=
+  mkS w_B 1 Complete 2 1000 w_sch 0 [9] 5 30 (Some w_x) [] [w_x; w_y; w_me] [] [] [] (Some w_g1') (Some [1]).
+Example C08_member_left_jump_witness :
+  let s0 := mkStore (Some w_fin1') (Some w_fin1') [] in
+  let h := [w_pkt (PProposal (w_terms_lj 2 [w_me])) 4; (0, EvCommand (mkCmd (Some w_B) (CJoin (JGroup w_g1')) [7; 7; 7; 7] false));
+            w_pkt (PExecute 0) 5; w_pkt (PProposal (w_terms_lj 11 [])) 6; w_pkt (PAbort [110]) 7;
+            w_pkt (PProposal (w_terms_lj 2 [])) 8] in
+  inv s0 /\ tight s0
+  /\ map (fun s => (st_state (get_current w_B s), st_epoch (get_current w_B s)))
+         (trace all_ok_j all_ok_k all_ok_v w_me w_B s0 h)
+     = [(Proposed, 2); (Joined, 2); (Left, 2); (Proposed, 11); (Aborted, 11); (Proposed, 2)].
+Proof.
+  split; [|split].
+  - split; simpl.
+    + intros f F; inversion F; subst. repeat split; try discriminate. exists w_fin1'; auto.
+    + intros c C; inversion C; subst. split; [discriminate|auto].
+  - exists w_fin1', w_fin1'. repeat split; auto.
+  - vm_compute. reflexivity.
+Qed.
+
 (* non-vacuity of the Left panic: Proposed (leaving) -> Execute packet -> Left -> next proposal *)
 Definition w_terms_leaving (epoch : Z) : terms :=
   mkT w_B 1 epoch 1000 (Some w_x) 5 30 w_sch 0 [9] [] [w_x] [w_me].
